@@ -140,9 +140,14 @@ func Line(cpu int, op int, m int, x int) {
 		cpuenv.AltMem[opAddr] = uint8(op)
 		c := cpuenv.Alt
 		pre.ToAlt(c)
-		s := &sink{}
-		failed = vp.Try(func() { c.DisassembleCurrentPC(s) })
-		out = s.b
+		if cpu == 2 {
+			// the string-returning disassembler (cycles, address, bytes, mnemonic, operand; no registers)
+			failed = vp.Try(func() { out = []byte(c.Disassemble(c.PC)) })
+		} else {
+			s := &sink{}
+			failed = vp.Try(func() { c.DisassembleCurrentPC(s) })
+			out = s.b
+		}
 		post = cpuenv.FromAlt(c)
 		post.BusM = pre.BusM // the open-bus latch is not architectural state on a fully mapped bus
 		vp.Assert("tracing-leaves-memory-unchanged", vp.BytesEqual(cpuenv.AltMem, cpuenv.SpecMem))
@@ -189,6 +194,11 @@ func Line(cpu int, op int, m int, x int) {
 	oEnd := end
 	if cpu == 0 {
 		if j := find(out, o, end, "|"); j >= 0 {
+			oEnd = j
+		}
+	}
+	if cpu == 2 {
+		if j := find(out, o, end, sepName); j >= 0 {
 			oEnd = j
 		}
 	}
@@ -255,6 +265,10 @@ func Line(cpu int, op int, m int, x int) {
 		}
 	}
 	vp.Assert("line-shows-the-operand", okOperand)
+	if cpu == 2 {
+		vp.Reach("end")
+		return
+	}
 	// ---- registers and flags as the instruction will see them
 	a := find(out, 0, end, "A=")
 	okRegs := a >= 0
